@@ -72,7 +72,11 @@ Definition borrows_receiver (api : rapi) : bool :=
 
 Definition accepts (p : cprog) : bool :=
   match p with
-  | CQuery n vs es => contains_views n vs && contains_views n es && disjoint_views n vs es
+  | CQuery n vs es =>
+      (* the [Disjoint] bound between views and entry views is on every public way to a query result — query,
+         par_query, run_system, run_par_system, the two [Task] impls (read off the source) *)
+      contains_views n vs && contains_views n es
+      && (if fact_entry_views_disjoint_bound_everywhere then disjoint_views n vs es else true)
   | CResViews nres req => nodupb (map snd req) && forallb (fun r => Nat.ltb (snd r) nres) req
   | COutside => false
   | CInside => true
